@@ -1491,6 +1491,96 @@ def gen_tank_drain_run(rng):
                       "diameter": round(rng.uniform(2.0, 4.0), 2)})
 
 
+def gen_wild_run(rng):
+    """NOT benign: control valves inside loops and next to by-passes, check valves and head pumps pointing against the flow (the
+    simulator closes them itself: status changes no control of the scenario commands), small tanks that hit their limits, PDD,
+    leaks (also on junctions that get cut off), rules instead of controls, pauses.  Judged by the statement only: per REPORTED
+    step, reachability through the non-Closed links as reported; a run that stops converging is counted, not judged."""
+    n = rng.randint(4, 9)
+    kinds = ["R"] + ["J"] * (n - 1)
+    links, lk = [], []
+    for v in range(1, n):
+        u = v - 1 if rng.random() < 0.6 else rng.randrange(v)
+        links.append((u, v))
+        lk.append(["pipe"])
+    tree = list(range(len(links)))
+    cand = tree[:]
+    rng.shuffle(cand)
+    cv_nodes = set()
+    for j in cand[:rng.randint(1, 4)]:
+        a, b = links[j]
+        k = rng.choice(SPECIAL_KINDS + ["hpumprev", "cvrev"])
+        if k in ("prv", "psv", "fcv") and (0 in (a, b) or a in cv_nodes or b in cv_nodes):
+            k = rng.choice(["tcv", "cv", "hpump"])      # add_valve refuses them on a reservoir; two on one node is C16's finding
+        if k == "fcv" and any(x[0] == "fcv" for x in lk):
+            k = "tcv"
+        if k in ("prv", "psv", "fcv"):
+            cv_nodes.update((a, b))
+        if k in ("hpump", "hpumprev"):
+            lk[j] = ["hpump", 0.05, round(rng.uniform(5, 25), 2)]
+            if k == "hpumprev":
+                links[j] = (b, a)
+        elif k == "tcv":
+            lk[j] = ["tcv", round(rng.uniform(0, 40), 2), rng.choice([ACTIVE, OPEN])]
+        elif k == "prv":
+            lk[j] = ["prv", round(rng.uniform(10, 50), 2), rng.choice([ACTIVE, ACTIVE, OPEN])]
+        elif k == "psv":
+            lk[j] = ["psv", round(rng.uniform(5, 40), 2), rng.choice([ACTIVE, ACTIVE, OPEN])]
+        elif k == "fcv":
+            lk[j] = ["fcv", rng.choice([0.5, 0.002, 0.0005]), rng.choice([ACTIVE, ACTIVE, OPEN])]
+        else:
+            lk[j] = ["cv"]
+            if k == "cvrev":
+                links[j] = (b, a)
+    for _ in range(rng.choice([0, 1, 1, 2, 3])):
+        a, b = rng.sample(range(n), 2)
+        links.append((a, b))
+        lk.append(["cv"] if rng.random() < 0.2 else ["pipe"])
+    if rng.random() < 0.3:
+        a, b = rng.choice(links)
+        links.append((a, b) if rng.random() < 0.5 else (b, a))
+        lk.append(["pipe"])
+    tank = None
+    if rng.random() < 0.35:
+        leaves = [v for v in range(1, n) if v not in cv_nodes and
+                  not any(v in links[j] and lk[j][0] in ("prv", "psv", "fcv") for j in range(len(links)))]
+        if leaves:
+            kinds[rng.choice(leaves)] = "T"
+            if rng.random() < 0.5:
+                tank = {"elevation": 20.0, "init_level": round(rng.uniform(0.8, 3.0), 2), "min_level": 0.5, "max_level": 3.5,
+                        "diameter": round(rng.uniform(2.0, 5.0), 2)}
+    init = []
+    for j in range(len(links)):
+        if lk[j][0] in ("tcv", "prv", "psv", "fcv"):
+            init.append(lk[j][2])
+        else:
+            init.append(CLOSED if rng.random() < 0.08 else OPEN)
+    steps = rng.randint(4, 7)
+    ctrls = []
+    for _ in range(rng.randint(1, 4)):
+        j = rng.randrange(len(links))
+        ta = rng.randint(0, steps - 1)
+        tb = rng.randint(ta + 1, steps)
+        vals = [OPEN, ACTIVE] if lk[j][0] in ("tcv", "prv", "psv", "fcv") else [OPEN]
+        ctrls.append((j, ta, CLOSED if rng.random() < 0.75 else rng.choice(vals)))
+        if rng.random() < 0.75:
+            ctrls.append((j, tb, rng.choice(vals)))
+    leaks = []
+    for v in rng.sample(range(1, n), min(n - 1, rng.choice([0, 0, 1, 2]))):
+        if kinds[v] == "J":
+            t0 = rng.choice([0, 0, rng.randint(1, steps - 1)])
+            leaks.append((v, rng.choice([1e-4, 5e-4, 1e-3]), t0, rng.choice([None, None, rng.randint(t0 + 1, steps)])))
+    sc = dict(n=n, kinds=kinds, links=links, lk=lk, init=init, steps=steps, ctrls=ctrls, pdd=rng.random() < 0.5,
+              demands=[round(rng.uniform(0.0005, 0.004), 6) for _ in range(n)], elev=[round(rng.uniform(0, 8), 2) for _ in range(n)],
+              wild=True, leaks=leaks, rules=rng.random() < 0.4)
+    if tank:
+        sc["tank"] = tank
+    if rng.random() < 0.2:
+        sc["pause"] = rng.randint(1, steps - 1)
+        sc["intvals"] = rng.random() < 0.5
+    return sc
+
+
 def build_run_wn(wntr, sc):
     from wntr.network.controls import Control, ControlAction, SimTimeCondition
 
@@ -1521,7 +1611,13 @@ def build_run_wn(wntr, sc):
     for c, (j, t, v) in enumerate(sc["ctrls"]):
         # the INP reader stores plain ints in control actions (LINK x CLOSED AT TIME t -> value 0): both forms must behave alike
         act = ControlAction(wn.get_link("L%d" % j), "status", int(v) if sc.get("intvals") else LS(v))
-        wn.add_control("c%d" % c, Control(SimTimeCondition(wn, "=", t * 3600), act))
+        if sc.get("rules"):
+            from wntr.network.controls import Rule
+            wn.add_control("c%d" % c, Rule(SimTimeCondition(wn, "=", t * 3600), [act], name="c%d" % c))
+        else:
+            wn.add_control("c%d" % c, Control(SimTimeCondition(wn, "=", t * 3600), act))
+    for (v, area, t0, t1) in sc.get("leaks", []):
+        wn.get_node("N%d" % v).add_leak(wn, area=area, start_time=t0 * 3600, end_time=None if t1 is None else t1 * 3600)
     wn.options.time.duration = sc["steps"] * 3600
     wn.options.time.hydraulic_timestep = 3600
     wn.options.time.report_timestep = 3600
@@ -1546,7 +1642,37 @@ def run_oracle(wntr, sc, trace=None):
     return prob, stats
 
 
+class _QuietFds:
+    """SuperLU reports singular matrices (`dgstrf info k`) straight to the C stdout: silenced for the non-benign family"""
+
+    def __init__(self, on):
+        self.on = on
+
+    def __enter__(self):
+        if self.on:
+            sys.stdout.flush()
+            sys.stderr.flush()
+            self.saved = [os.dup(1), os.dup(2)]
+            nul = os.open(os.devnull, os.O_WRONLY)
+            os.dup2(nul, 1)
+            os.dup2(nul, 2)
+            os.close(nul)
+
+    def __exit__(self, *a):
+        if self.on:
+            os.dup2(self.saved[0], 1)
+            os.dup2(self.saved[1], 2)
+            os.close(self.saved[0])
+            os.close(self.saved[1])
+        return False
+
+
 def _run_oracle(wntr, sc, wn):
+    with _QuietFds(bool(sc.get("wild"))):
+        return _run_oracle1(wntr, sc, wn)
+
+
+def _run_oracle1(wntr, sc, wn):
     sim = wntr.sim.WNTRSimulator(wn)
     kw = {"HW_approx": "piecewise"} if sc.get("piecewise") else {}
     try:
@@ -1564,7 +1690,7 @@ def _run_oracle(wntr, sc, wn):
             r2 = wntr.sim.WNTRSimulator(wn).run_sim(**kw)
             res = _Cat()
             res.error_code = r1.error_code if r1.error_code is not None else r2.error_code
-            res.node = {k: pd.concat([r1.node[k], r2.node[k]]) for k in ("pressure", "demand", "head")}
+            res.node = {k: pd.concat([r1.node[k], r2.node[k]]) for k in ("pressure", "demand", "head", "leak_demand")}
             res.link = {k: pd.concat([r1.link[k], r2.link[k]]) for k in ("status", "flowrate")}
         else:
             res = sim.run_sim(**kw)
@@ -1575,14 +1701,17 @@ def _run_oracle(wntr, sc, wn):
     except Exception as e:
         return ("run-raises", "run_sim raised %s: %s" % (type(e).__name__, e), {"exception": repr(e)}), {}
     stats = {"iso_steps": 0, "conn_steps": 0, "reconnect": 0, "steps": 0}
-    if res.error_code is not None:
+    if res.error_code is not None and sc.get("wild"):
+        stats["wild_unconverged"] = 1         # hydraulics that are not benign: the reported prefix is still judged
+    elif res.error_code is not None:
         # plain pipes, one or more fixed-head sources, demand-driven or PDD with mild demands: nothing but the isolation
         # bookkeeping can make such a run fail ("the simulator still solves the rest of the network")
         return ("rest-not-solved", "run_sim did not converge (error_code %r, last reported time %s)"
                 % (res.error_code, list(res.node["pressure"].index)[-1:]), {"error_code": repr(res.error_code)}), {"unconverged": 1}
     times = list(res.node["pressure"].index)
-    if times != [t * 3600 for t in range(sc["steps"] + 1)]:
+    if times != [t * 3600 for t in range(sc["steps"] + 1)] and not (sc.get("wild") and res.error_code is not None):
         return ("steps-missing", "reported times %s" % times, {"times": times}), stats
+    leakq = res.node.get("leak_demand") if isinstance(res.node, dict) else None
     n = sc["n"]
     was_iso = set()
     for t in times:
@@ -1602,15 +1731,29 @@ def _run_oracle(wntr, sc, wn):
                     seen.add(v)
                     stack.append(v)
         flow = res.link["flowrate"].loc[t]
+        # links the simulator closed by itself (check valve, pump shut-off, tank limit, valve logic): reported Closed although the
+        # last command of the scenario (or the initial status) is not Closed -- evidence only
+        selfc = 0
+        for j in range(len(sc["links"])):
+            cmd = sc["init"][j]
+            for (jj, tt, vv) in sc["ctrls"]:
+                if jj == j and tt * 3600 <= t:
+                    cmd = vv
+            if cmd != CLOSED and int(st["L%d" % j]) == 0:
+                selfc += 1
+        stats["self_closed_link_steps"] = stats.get("self_closed_link_steps", 0) + selfc
+        if selfc and len(seen) < n:
+            stats["iso_steps_with_self_closed_link"] = stats.get("iso_steps_with_self_closed_link", 0) + 1
         for i in range(n):
             if sc["kinds"][i] != "J":
                 continue
             nm = "N%d" % i
             p, d, h = float(res.node["pressure"].loc[t, nm]), float(res.node["demand"].loc[t, nm]), float(res.node["head"].loc[t, nm])
+            lq = float(leakq.loc[t, nm]) if leakq is not None else 0.0
             inc = [j for j, (a, b) in enumerate(sc["links"]) if a == i or b == i]
             if i not in seen:
                 stats["iso_steps"] += 1
-                bad = [("pressure", p)] * (p != 0.0) + [("demand", d)] * (d != 0.0) + \
+                bad = [("pressure", p)] * (p != 0.0) + [("demand", d)] * (d != 0.0) + [("leak_demand", lq)] * (lq != 0.0) + \
                       [("flow L%d" % j, float(flow["L%d" % j])) for j in inc if float(flow["L%d" % j]) != 0.0]
                 if bad:
                     return ("isolated-not-zeroed", "t=%d junction %s is cut off but reports %s" % (t, nm, bad),
@@ -1631,8 +1774,8 @@ def _run_oracle(wntr, sc, wn):
                 if not sc["pdd"] and abs(d - exp) > 1e-9:
                     return ("connected-demand", "t=%d connected junction %s demand %r != %r" % (t, nm, d, exp),
                             {"t": t, "junction": nm, "demand": d, "expected": exp}), stats
-                if abs(net_in - d) > 1e-5:
-                    return ("rest-not-solved", "t=%d connected junction %s: net inflow %r != demand %r" % (t, nm, net_in, d),
+                if abs(net_in - d - lq) > 1e-5:
+                    return ("rest-not-solved", "t=%d connected junction %s: net inflow %r != demand %r + leak %r" % (t, nm, net_in, d, lq),
                             {"t": t, "junction": nm, "net_inflow": net_in, "demand": d}), stats
         # "reconnecting restores normal results": an open link whose two ends are connected to a source carries the flow its
         # head-flow law dictates; a reported flow of exactly 0 across a head difference (or through an open pump) is what a link
@@ -2033,6 +2176,8 @@ class C09(Check):
                 extra.append(dict(sc, pause=1 + (i // 3) % (sc["steps"] - 1), intvals=(i % 2 == 0)))
         runs += extra
         runs += elem
+        # not benign on purpose (valves in loops, self-closing check valves / pumps, tank limits, PDD, leaks, rules)
+        runs += [gen_wild_run(rng) for _ in range(40 if q else 1500)]
         # a zone that lives on a small tank until WNTR's own tank control closes the tank's link (internal status)
         runs += [gen_tank_drain_run(rng) for _ in range(4 if q else 60)]
         return csr, nets, runs
